@@ -155,12 +155,29 @@ type c05ValueCase struct {
 	V      string `json:"v"`
 	Hex    bool   `json:"hex,omitempty"`
 	Nested bool   `json:"nested,omitempty"`
+	Rep    string `json:"rep,omitempty"` // how the string is bound: "" a string, named (a named string type), ptr (*string), drop (a Drop yielding it), elems (the only element of a []named)
+}
+
+// c05Bound is the string in the representation the case asks for
+func (c *c05ValueCase) bound() any {
+	switch c.Rep {
+	case "named":
+		return hx.NamedString(c.V)
+	case "ptr":
+		v := c.V
+		return &v
+	case "drop":
+		return hx.Drop{V: c.V}
+	case "elems":
+		return []any{hx.NamedString(c.V)}
+	}
+	return c.V
 }
 
 var c05Value = hx.Define("c05.value", func(c *c05ValueCase, s *hx.Sub) *hx.Violation {
-	src, binds := "[{{ v }}]", map[string]any{"v": c.V}
+	src, binds := "[{{ v }}]", map[string]any{"v": c.bound()}
 	if c.Nested {
-		src, binds = "[{{ page.items[1].text }}]{% assign w = page.items[1].text %}[{{ w }}]{% capture c %}{{ w }}{% endcapture %}[{{ c }}]", map[string]any{"page": map[string]any{"items": []any{0, map[string]string{"text": c.V}}}}
+		src, binds = "[{{ page.items[1].text }}]{% assign w = page.items[1].text %}[{{ w }}]{% capture c %}{{ w }}{% endcapture %}[{{ c }}]", map[string]any{"page": map[string]any{"items": []any{0, map[string]any{"text": c.bound()}}}}
 	}
 	o := hx.Render(src, binds)
 	if o.Panic != nil {
@@ -359,7 +376,7 @@ func TestC05(t *testing.T) {
 	}
 
 	val := c05Value.On(col, "rapid: string values - arbitrary bytes, valid UTF-8, HTML/URL specials, delimiter text ({{ x }}, {% raw %}), white space at the edges, up to 64 KiB - printed by an object directly and after a nested lookup, assign and capture; oracle: emitted exactly. Non-trivial: non-empty; distinct by value", false)
-	vfrag := []string{"<", ">", "&", "\"", "'", "{{ x }}", "{% raw %}", "%}", " ", "\n", "\t", "é", "😀", "\x00", "\xff\xfe", "&amp;", "%20", "\\", "a", "\ufeff", "\r\n", "\u2028", "\u200b"}
+	vfrag := []string{"%", "%d", "%!s", "100%", "<", ">", "&", "\"", "'", "{{ x }}", "{% raw %}", "%}", " ", "\n", "\t", "é", "😀", "\x00", "\xff\xfe", "&amp;", "%20", "\\", "a", "\ufeff", "\r\n", "\u2028", "\u200b"}
 	col.Rapid(val.Sub, env.PerShard(env.Pick(40000, 400000)), func(t *rapid.T) {
 		var v string
 		if rapid.Bool().Draw(t, "bytes") {
@@ -370,7 +387,7 @@ func TestC05(t *testing.T) {
 				v = strings.Repeat(v+"x", 65536/(len(v)+1))
 			}
 		}
-		c := &c05ValueCase{V: v, Nested: rapid.Bool().Draw(t, "nested")}
+		c := &c05ValueCase{V: v, Nested: rapid.Bool().Draw(t, "nested"), Rep: rapid.SampledFrom([]string{"", "", "named", "ptr", "drop", "elems"}).Draw(t, "rep")}
 		if res := val.Run(c); res != nil {
 			t.Fatalf("%s", res.Message)
 		}
